@@ -380,6 +380,10 @@ func (ex *Exec) runPathOnce(fn *ssa.Function, it workItem) {
 	ex.resetPath(it.prefix)
 	ex.sol.Push()
 	tPath := time.Now()
+	ex.pathDeadline = tPath.Add(90 * time.Second)
+	if !ex.w.deadline.IsZero() && ex.w.deadline.Add(20*time.Second).Before(ex.pathDeadline) {
+		ex.pathDeadline = ex.w.deadline.Add(20 * time.Second)
+	}
 	solT0 := ex.sol.Time
 	mt0 := ex.sol.ModelTime
 	q0 := ex.sol.Queries.Sat + ex.sol.Queries.Unsat
@@ -430,7 +434,7 @@ func (ex *Exec) finishPath(kind, msg string) {
 		} else {
 			w.note(kind + ": " + msg)
 		}
-	case "unsupported", "unwind":
+	case "unsupported", "unwind", "timeout":
 		w.note(kind + ": " + msg)
 	case "steplimit":
 		if w.hangIsViolation(ex.harness) {
